@@ -187,8 +187,10 @@ def run_model_cases(imports, runner, terms, tag, shard=400, scope="N_scope"):
     runner : Gallina function from one case to a string (one line).
     Returns list of result lines (same order as terms)."""
     d = os.path.join(BUILD, "cases", tag)
-    shutil.rmtree(d, ignore_errors=True)
-    os.makedirs(d)
+    os.makedirs(d, exist_ok=True)
+    for fn in os.listdir(d):
+        if fn.startswith("cases_"):
+            os.remove(os.path.join(d, fn))
     nsh = max(1, min(NCPU * 4, (len(terms) + shard - 1) // shard))
     nsh = max(nsh, min(NCPU, (len(terms) + 49) // 50))
     bounds = [(k * len(terms) // nsh, (k + 1) * len(terms) // nsh) for k in range(nsh)]
@@ -284,14 +286,16 @@ def run_harness(binary, mode, case_lines, tag, as_limit_gb=None, shards=1, timeo
                                env=dict(os.environ, AXV_SCRATCH=os.path.join(BUILD, "scratch")))
             with open(opath) as f:
                 done = len(f.read().splitlines())
-            if p.returncode == 0 and done >= total:
-                break
             if done >= total:
                 break
-            # the process died while running case index `done`
-            with open(opath, "a") as f:
-                f.write("abort rc=%d\n" % p.returncode)
-            start = done + 1
+            if p.returncode == 3:
+                # watchdog: the line "hang" for the stuck case is already written
+                start = done
+            else:
+                # the process died while running case index `done`
+                with open(opath, "a") as f:
+                    f.write("abort rc=%d\n" % p.returncode)
+                start = done + 1
         with open(opath) as f:
             res = f.read().splitlines()
         return res
